@@ -189,6 +189,9 @@ pub struct World {
     pub coll_explicit: Cell<bool>,
     /// (owner, action index) of the Cleanable::clean() calls in flight
     pub cleaning: RefCell<Vec<(u32, usize)>>,
+    /// behaviour features of the running history (novelty feedback of the evolve generator; never a verdict)
+    pub feat_on: Cell<bool>,
+    pub feats: RefCell<Vec<u64>>,
 }
 
 impl World {
@@ -252,6 +255,8 @@ impl World {
             fault_obj_mark: Cell::new(u32::MAX),
             coll_explicit: Cell::new(false),
             cleaning: RefCell::new(Vec::with_capacity(16)),
+            feat_on: Cell::new(false),
+            feats: RefCell::new(Vec::with_capacity(FEAT_CAP)),
         }
     }
 }
@@ -268,6 +273,88 @@ pub fn w() -> &'static World {
 
 pub fn try_w() -> Option<&'static World> {
     W.try_with(|w| *w).ok()
+}
+
+pub const FEAT_CAP: usize = 1 << 15;
+
+// feature tags (evolve generator)
+pub const FT_EXEC: u64 = 1;
+pub const FT_CB: u64 = 2;
+pub const FT_UPGRADE: u64 = 3;
+pub const FT_UNWRAP: u64 = 4;
+pub const FT_FINAGAIN: u64 = 5;
+pub const FT_COLL: u64 = 6;
+pub const FT_UNWIND: u64 = 7;
+pub const FT_OBJ: u64 = 8;
+pub const FT_EDGE: u64 = 9;
+pub const FT_BUF: u64 = 10;
+pub const FT_CLEAN: u64 = 11;
+pub const FT_RELEASE: u64 = 12;
+
+impl World {
+    /// Code of the callback / API nesting (kinds only, consecutive repeats collapsed, innermost 8 frames).
+    pub fn stack_code(&self) -> u64 {
+        let Ok(s) = self.stack.try_borrow() else { return 0 };
+        let mut h: u64 = 0xcbf2_9ce4_8422_2325;
+        let mut last = 255u64;
+        let start = s.len().saturating_sub(8);
+        for f in s[start..].iter() {
+            let k: u64 = match f {
+                Frame::ApiCollect => 1,
+                Frame::ApiNew => 2,
+                Frame::ApiDrop => 3,
+                Frame::ApiClean => 4,
+                Frame::ApiOther => 5,
+                Frame::Cb(c, _) => match c {
+                    Cb::TracePre | Cb::TraceMid | Cb::TracePost => 6,
+                    Cb::Finalize => 7,
+                    Cb::Drop => 8,
+                    Cb::Action => 9,
+                    Cb::Closure => 10,
+                },
+            };
+            if k == last {
+                continue;
+            }
+            last = k;
+            h = (h ^ k).wrapping_mul(0x0000_0100_0000_01B3);
+        }
+        h
+    }
+
+    /// Records a behaviour feature (context = nesting stack). No allocation: the list is pre-reserved and capped.
+    pub fn feature(&self, tag: u64, a: u64, b: u64) {
+        if !self.feat_on.get() {
+            return;
+        }
+        let mut h = self.stack_code();
+        for x in [tag, a, b] {
+            h = (h ^ x).wrapping_mul(0x0000_0100_0000_01B3);
+            h ^= h >> 29;
+        }
+        if let Ok(mut f) = self.feats.try_borrow_mut() {
+            if f.len() < FEAT_CAP {
+                f.push(h);
+            }
+        }
+    }
+
+    /// Same, without the nesting context (state-shape features sampled at quiescent points).
+    pub fn feature_flat(&self, tag: u64, a: u64, b: u64) {
+        if !self.feat_on.get() {
+            return;
+        }
+        let mut h: u64 = 0x9E37_79B9_7F4A_7C15;
+        for x in [tag, a, b] {
+            h = (h ^ x).wrapping_mul(0x0000_0100_0000_01B3);
+            h ^= h >> 29;
+        }
+        if let Ok(mut f) = self.feats.try_borrow_mut() {
+            if f.len() < FEAT_CAP {
+                f.push(h);
+            }
+        }
+    }
 }
 
 // ---------------------------------------------------------------------------------------------------------------
@@ -402,6 +489,10 @@ impl World {
         let cell = &self.cb_counts[c as usize];
         cell.set(cell.get() + 1);
         bump(&self.stats.cb[c as usize]);
+        if self.feat_on.get() {
+            let fl = rust_cc::verif::state_flags().map_or(9, |(a, b, d)| a as u64 | (b as u64) << 1 | (d as u64) << 2);
+            self.feature(FT_CB, c as u64, fl | (self.coll_drop_phase.get() as u64) << 4 | (self.in_collection.get() as u64) << 5);
+        }
         if let Some(f) = self.fault.get() {
             if f.kind == c as u8 && f.k == cell.get() {
                 self.fault.set(None);
